@@ -25,4 +25,10 @@ CLAIMED = {
         "note": "Trusted: Lean kernel, translator, correspondence harness; the `time` crate is modelled (parser transliterated, calendar re-derived), not verified; Ord and serde by correspondence.",
         "technique": "Lean 4 proof (omega + complete finite tables + byte-level round trip) over regenerated gates + correspondence",
     },
+    "C10": {
+        "text": "Lean 4 theorems about a byte-level transliteration of the third-party parser (with its defects) + the identity_did wrappers, character classes regenerated from BOTH sources: the guarded parser call never panics for ANY input (the guard's scan is proved to mirror the parser's method-id scan); every accepted plain DID is verbatim, recomposes as did:<method>:<id>, satisfies the W3C character/percent-triple syntax per component (stated against an independent inductive grammar) and contains no '/', '?', '#'; every DID URL value produced by parse / join / setters has well-formed components; DIDUrl::parse and join are total; Eq <-> Ord = Equal and Eq -> equal hash input. Re-parse of joined / edited values and verbatim string form of DID URLs are tied by correspondence (exhaustive short strings over an adversarial alphabet); 4 residual classes are recorded as known findings.",
+        "design_ref": "DESIGN.md §7.10",
+        "note": "Trusted: Lean kernel, translator, correspondence harness; did_url_parser is modelled (transliterated) not verified; its buffer setters are modelled at component level; serde glue.",
+        "technique": "Lean 4 proof (induction over scanning loops, grammar equivalence) over regenerated character classes + correspondence",
+    },
 }
